@@ -396,14 +396,21 @@ class Interp:
 
     # ---- output-buffer write log: per tracked buffer a ghost cell (high-water mark, start of the trailing run of zero
     # bytes, broken flag).  Invariant: every byte of [0, hw) has been written; bytes of [zlo, hw) were written as zero.
-    def record_write(self, st, seq, lo, hi, kind):
+    def record_write(self, st, seq, lo, hi, kind, val=None):
         if not isinstance(seq, Seq) or seq.view is None:
             return
         base, off = seq.view
         if str(base).startswith("@"):
-            # a window of an owned container (content-tracking mode): an untracked write makes that part unknown
+            # a window of an owned container (content-tracking mode): zeros and single known bytes are kept, any other
+            # untracked write makes that part unknown
             from absint.models_content import patch_container
-            patch_container(self, st, seq.view, lo, hi, ("be", 0, None))
+            if kind == "zero":
+                d = ("zero",)
+            elif isinstance(val, Num) and st.sys.entails_eq(hi - lo - 1):
+                d = ("be", 1, val.e)
+            else:
+                d = ("be", 0, None)
+            patch_container(self, st, seq.view, lo, hi, d)
             return
         cell = "wlog:" + base
         g = st.cells.get(cell)
@@ -460,7 +467,7 @@ class Interp:
                 else:
                     ix = None
                 if ix is not None:
-                    self.record_write(st, sv, ix, ix + 1, "zero" if self.is_zero_value(st, val) else "data")
+                    self.record_write(st, sv, ix, ix + 1, "zero" if self.is_zero_value(st, val) else "data", val)
                 else:
                     self.record_write(st, sv, Lin.const(0), Lin.const(-1), "data")
             if isinstance(sv, Seq) and len(sv.len.t) == 1:
@@ -579,6 +586,14 @@ class Interp:
             if t.get("k") == "fndef":
                 return FnV(t.get("key") or t.get("path"))
             return Struct()
+        if t.get("k") == "ref":
+            # a reference to a static / unevaluated constant array: the type still gives its length
+            to = fr.body.ty(t["to"])
+            if to.get("k") == "array" and isinstance(to.get("len"), int):
+                cell = "const:%s:%s" % (to.get("s"), str(v.get("static") or v)[:96])
+                if cell not in st.cells:
+                    st.cells[cell] = Seq(Lin.const(to["len"]), None, Empty() if to["len"] == 0 else None)
+                return Ref(cell)
         return TOP
 
     def const_array(self, fr, t, v):
@@ -739,7 +754,15 @@ class Interp:
         if base == "Div" and cb is not None and cb > 0 and unsigned:
             if ca is not None:
                 return Num(Lin.const(int(ca) // int(cb)))
-            q = self.fresh_num(st, 0, None, "div")
+            if self.track_content:
+                # content mode: the quotient is a function of the dividend too - name it after it, so that `x / c` computed
+                # twice (two writers of the same value) is the same number
+                hx = hash_str("%r|%d" % (st.sys.reduce(ea), int(cb))) & 0xffffffffffff
+                q = Num(Lin.var("dq%x" % hx))
+                st.sys.add_ge(q.e)
+                self.purefun["dq%x" % hx] = set(ea.t)
+            else:
+                q = self.fresh_num(st, 0, None, "div")
             st.sys.add_le(q.e.scale(int(cb)), ea)
             st.sys.add_le(ea, q.e.scale(int(cb)) + (int(cb) - 1))
             return q
@@ -1209,7 +1232,7 @@ class Interp:
             if isinstance(c, int):
                 if self.track_content and 0 < c <= 16:
                     v0 = self.operand(st, fr, rv["op"])
-                    return Seq(Lin.const(c), None, Struct({i: v0 for i in range(c)}, tag="elems"))
+                    return Seq(Lin.const(c), None, Struct({i: v0 for i in range(c)}, tag="elems"), None, ("zeros",) if self.is_zero_value(st, v0) else None)
                 return Seq(Lin.const(c))
             t = b.ty(dest_ty)
             if t.get("k") == "array":
@@ -1232,7 +1255,14 @@ class Interp:
             if self.fits(st, e, tt):
                 return Num(e)
             lo, hi = int_range(tt)
-            r = self.fresh_num(st, lo, hi, "cast")
+            if self.track_content:
+                # content mode: a truncation is a function of the value truncated (same value, same width -> same bytes)
+                cn = "cast%d_%x" % (tt.get("bits", 0), hash_str("%r|%s" % (st.sys.reduce(e), tt.get("s"))) & 0xffffffffffff)
+                r = Num(Lin.var(cn))
+                st.sys.add_range(r.e, lo, hi)
+                self.purefun[cn] = set(e.t)
+            else:
+                r = self.fresh_num(st, lo, hi, "cast")
             if lo == 0 and st.sys.entails_ge(e):
                 st.sys.add_le(r.e, e)       # truncation of a non-negative value never increases it
             self.contents.setdefault("casts", {})[next(iter(r.e.t))] = e       # what was truncated (for rules that read layouts)
@@ -1242,6 +1272,11 @@ class Interp:
             if tt.get("k") in ("ref", "ptr") and b.ty(tt["to"]).get("k") in ("slice", "str"):
                 if isinstance(v, Ref):
                     x = self.load(st, v.cell, v.path)
+                    if isinstance(x, Seq) and self.track_content and tt.get("mut") and x.view is None and not str(v.cell).startswith("const:") \
+                            and int_range(b.ty(b.ty(tt["to"]).get("of"))) == (0, 255) if "of" in b.ty(tt["to"]) else False:
+                        # `&mut [u8; N]` as `&mut [u8]`: a window of the local array, so that writes through it reach the array
+                        from absint.models_content import cell_view_id
+                        return Seq(x.len, None, None, (cell_view_id(self, v.cell, tuple(v.path)), Lin.const(0)), None)
                     if isinstance(x, Seq):
                         return x
                 if isinstance(v, Seq):
